@@ -38,8 +38,9 @@ use simcore::{Engine, Outcome, Rng, Tier, TraceHash, wake::Task};
 
 #[derive(Serialize, Deserialize, Clone, Debug, PartialEq)]
 pub enum POp {
-    /// a packet of `size` bytes arrives on the path
-    Rcvd { size: u16 },
+    /// a packet of `size` bytes arrives on the path; `content`: 0 = carries data, 1 = only a PING, 2 = only ACK / padding
+    /// (not ack-eliciting) — every byte received from the address earns credit, whatever the packet carries
+    Rcvd { size: u16, #[serde(default)] content: u8 },
     /// the send loop wants to send `size` bytes: cut to the credit, charged through `Path::send_packets`
     Send { size: u16 },
     /// the connection starts validating the path (`Path::validate`)
@@ -130,8 +131,13 @@ pub async fn run(case: &PCase) -> Outcome {
         let at = step as u64;
         th.add(at);
         match op {
-            POp::Rcvd { size } => {
-                path.on_packet_rcvd(Epoch::Data, pn, *size as usize, PacketContent::EffectivePayload);
+            POp::Rcvd { size, content } => {
+                let pc = match content {
+                    0 => PacketContent::EffectivePayload,
+                    1 => PacketContent::JustPing,
+                    _ => PacketContent::NonAckEliciting,
+                };
+                path.on_packet_rcvd(Epoch::Data, pn, *size as usize, pc);
                 pn += 1;
                 rcvd += *size as i128;
             }
@@ -246,12 +252,27 @@ pub async fn run(case: &PCase) -> Outcome {
                 Err(_) => c <= 0,
             };
             if !ok {
-                out.violate("over-3x", "path-balance-mismatch", format!("unvalidated path: balance {:?}, model 3*{rcvd} - {sent} = {c}", st.balance), at);
+                // more credit than three times what arrived is the safety half, less is the "sending resumes as soon as
+                // more is received" half
+                let real: i128 = match st.balance {
+                    Ok(Some(b)) => b as i128,
+                    _ => 0,
+                };
+                if real > c.max(0) {
+                    out.violate("over-3x", "path-credit-exceeds-3x", format!("unvalidated path: balance {:?}, model 3*{rcvd} - {sent} = {c}", st.balance), at);
+                } else {
+                    out.violate("resume", "path-credit-withheld", format!("unvalidated path: balance {:?} although 3*{rcvd} - {sent} = {c} bytes may be sent (op {op:?})", st.balance), at);
+                }
                 break;
             }
-            if parked && stask.is_woken() && c > 0 {
-                stask.take_woken();
+            if parked && c > 0 {
+                // credit appeared while the send task was parked on it: it must have been woken
+                if !stask.take_woken() {
+                    out.violate("resume", "parked-sender-not-woken-by-arrival", format!("a send task parked on CREDIT was not woken although a packet arrived and the credit is now {c} (op {op:?})"), at);
+                    break;
+                }
                 parked = false;
+                out.stats.bump("probe.parked_sender_woken_by_arrival");
             }
         }
     }
@@ -291,7 +312,7 @@ impl Engine for PathSim {
                 ops.push(POp::StartValidate);
             }
             ops.push(match r.below(12) {
-                0..=2 => POp::Rcvd { size: *r.pick(&[0u16, 29, 49, 100, 1200, 1452]) },
+                0..=2 => POp::Rcvd { size: *r.pick(&[0u16, 29, 49, 100, 400, 1200, 1452]), content: *r.pick(&[0u8, 0, 1, 2, 2]) },
                 3..=5 => POp::Send { size: *r.pick(&[29u16, 105, 1200, 1200, 1452]) },
                 6 => POp::Respond { kind: 0 },
                 7 => POp::Respond { kind: 1 + r.below(2) as u8 },
